@@ -242,9 +242,10 @@ func TestProp(t *testing.T) {
 	// truncation length, appended 1..17 bytes, every adjacent block swap, every other usage.
 	lens := []int{}
 	if r.Thorough() {
-		for n := 0; n <= 64; n++ {
+		for n := 0; n <= 130; n++ {
 			lens = append(lens, n)
 		}
+		lens = append(lens, 255, 256, 257, 1023, 1024, 1025, 4096)
 	} else {
 		// 8 lengths per run, seed-dependent, always including the boundary lengths 0, 1 and one block multiple
 		pick := map[int]bool{0: true, 1: true}
